@@ -31,8 +31,9 @@ def pw_strategy():
                      st.text(alphabet=st.characters(min_codepoint=32, max_codepoint=126), max_size=12))   # str passwords: ASCII only (encoding of other characters is an undocumented API convention)
 
 
-def as_bytes(p):
-    return p.encode("utf-8") if isinstance(p, str) else bytes(p)
+def as_bytes(p, encoding="utf-8"):
+    # text arguments: UTF-8 where a function documents that (bcrypt), ISO 8859-1 for PBKDF2 (its docstring); identical for ASCII-only text
+    return p.encode(encoding) if isinstance(p, str) else bytes(p)
 
 
 def hashmod(name):
@@ -52,8 +53,13 @@ def strat_pbkdf(draw, tier):
     else:
         c["hash"] = draw(st.sampled_from(ASSIST + NOASSIST))
         hl = oracles.HASHES[c["hash"]][1]
+        if draw(st.integers(0, 3)) == 0:
+            # PBKDF2 documents text passwords and salts as ISO 8859-1: any code point up to U+00FF
+            c["password"] = draw(st.text(alphabet=st.characters(min_codepoint=32, max_codepoint=255), min_size=1, max_size=12))
         c["salt"] = draw(st.one_of(st.binary(max_size=20), st.just(b""), gen.data_of(st.sampled_from([0, 8, 64, 128, 129]))))
         c["dklen"] = draw(st.one_of(st.integers(1, 5 * hl + 3), st.sampled_from([1, hl - 1, hl, hl + 1, 2 * hl, 2 * hl + 1, 16, 32])))
+        if draw(st.integers(0, 5)) == 0:
+            c["salt"] = draw(st.text(alphabet=st.characters(min_codepoint=32, max_codepoint=255), max_size=12))
         c["count"] = draw(st.one_of(st.integers(1, 40), st.sampled_from([1, 2, 3, 300] + ([10000] if tier == "thorough" else [])), st.sampled_from([0, -1])))
         if c["hash"] in ("MD2", "MD4") and c["count"] > 60:
             c["count"] = 60
@@ -63,7 +69,9 @@ def strat_pbkdf(draw, tier):
 def run_pbkdf(case, rec):
     from Crypto.Protocol import KDF
     which, pw, salt, dklen, count = case["which"], case["password"], case["salt"], case["dklen"], case["count"]
-    pwb = as_bytes(pw)
+    pwb = as_bytes(pw, "latin-1")
+    salt_arg = salt
+    salt = as_bytes(salt, "latin-1")    # references work on bytes; the library call gets the original (possibly text) argument
     h = case["hash"]
     fn, hl, bs, hln = oracles.HASHES[h]
     info = {"which": which, "hash": h, "pwlen": len(pwb), "saltlen": len(salt), "dklen": dklen, "count": count}
@@ -81,10 +89,10 @@ def run_pbkdf(case, rec):
                     pass
     else:
         if which == "pbkdf2":
-            call = lambda: KDF.PBKDF2(pw, salt, dklen, count, hmac_hash_module=hashmod(h))
+            call = lambda: KDF.PBKDF2(pw, salt_arg, dklen, count, hmac_hash_module=hashmod(h))
         else:
             prf = lambda p, s: oracles.ref_hmac(h, p, s)[::-1]        # a custom PRF that is *not* HMAC
-            call = lambda: KDF.PBKDF2(pw, salt, dklen, count, prf=prf)
+            call = lambda: KDF.PBKDF2(pw, salt_arg, dklen, count, prf=prf)
         bad = count < 1
         if not bad:
             if which == "pbkdf2":
